@@ -149,6 +149,69 @@ func Run(c *hx.Ctx) {
 			}
 		}
 	}
+	// 1c. endorsement quorum on the RUNNING block pool: endorseDone(C) may only answer "done" for a
+	// proposal (or for the empty block) that more than C DISTINCT endorsers endorsed - that is what
+	// makes the C+1 threshold contain an honest peer. Repeated endorsements of one peer, endorsements
+	// for several proposers and late empty endorsements are fed in every order.
+	checkEndorse := func(cc uint32, es []vbft.VerifC28Endorse, label string) {
+		prop, forEmpty, done := vbft.VerifC28EndorseDone(cc, es)
+		c.Eval()
+		c.Count("run:endorse-done:" + map[bool]string{true: "done", false: "not-done"}[done])
+		if !done {
+			return
+		}
+		distinct := map[uint32]bool{}
+		for _, e := range es {
+			if (forEmpty && e.ForEmpty) || (!forEmpty && !e.ForEmpty && e.Proposer == prop) {
+				distinct[e.Endorser] = true
+			}
+		}
+		c.Nontrivial(fmt.Sprintf("endorse/%d/%d/%v", cc, len(es), forEmpty))
+		if uint32(len(distinct)) < cc+1 {
+			c.Fail("quorum:run:endorseDone", "an endorsement quorum needs more than C distinct endorsers (otherwise it may contain no honest peer)",
+				map[string]interface{}{"C": cc, "endorsements": es, "probe": label},
+				fmt.Sprintf("done for proposer %d (empty=%v) with %d distinct endorser(s)", prop, forEmpty, len(distinct)), fmt.Sprintf(">= %d distinct endorsers", cc+1))
+		}
+	}
+	for n := 4; n <= 16; n++ {
+		for cc := 1; 3*cc+1 <= n; cc++ {
+			// one faulty endorser repeating its empty endorsement, C other endorsers each endorsing a
+			// different proposal (so the pool holds C+1 endorsers but no proposal has C+1 backers)
+			for rep := 2; rep <= cc+2; rep++ {
+				var es []vbft.VerifC28Endorse
+				for h := 0; h < cc; h++ {
+					es = append(es, vbft.VerifC28Endorse{Endorser: uint32(10 + h), Proposer: uint32(100 + h)})
+				}
+				for r := 0; r < rep; r++ {
+					es = append(es, vbft.VerifC28Endorse{Endorser: 1, Proposer: 100, ForEmpty: true})
+				}
+				checkEndorse(uint32(cc), es, "one-peer-repeats-empty")
+				// the same with the repeats first, and with the peer endorsing a proposal first
+				rev := append([]vbft.VerifC28Endorse{{Endorser: 1, Proposer: 100}}, es...)
+				checkEndorse(uint32(cc), rev, "proposal-then-repeated-empty")
+			}
+			// C faulty endorsers each repeating an endorsement of the same proposal / of empty
+			for _, empty := range []bool{false, true} {
+				var es []vbft.VerifC28Endorse
+				es = append(es, vbft.VerifC28Endorse{Endorser: 50, Proposer: 200})
+				for r := 0; r < 3; r++ {
+					for f := 0; f < cc; f++ {
+						es = append(es, vbft.VerifC28Endorse{Endorser: uint32(1 + f), Proposer: 100, ForEmpty: empty})
+					}
+				}
+				checkEndorse(uint32(cc), es, "c-faulty-repeat")
+			}
+			// random sequences with deliberate repeats
+			for k := 0; k < c.N(12, 120); k++ {
+				var es []vbft.VerifC28Endorse
+				ln := 1 + c.Intn(3*n)
+				for i := 0; i < ln; i++ {
+					es = append(es, vbft.VerifC28Endorse{Endorser: uint32(1 + c.Intn(cc+2)), Proposer: uint32(100 + c.Intn(3)), ForEmpty: c.Intn(3) == 0})
+				}
+				checkEndorse(uint32(cc), es, "random")
+			}
+		}
+	}
 	// 2. translation validation where the formula is observable through an exported function:
 	// AddressFromBookkeepers(keys) must be the m-of-n address with m = addr_bookkeepers_m n.
 	var keys []keypair.PublicKey
